@@ -166,13 +166,15 @@ def explore(h, max_states=200000, seed=0, max_wall=None, check_key_soundness=Tru
                     key, rank = ("step", len(choices)), None
                 else:
                     key, rank = statekey.state_key(sched, repo, extra)
+                acts = [] if (finished or viol) else sched.enabled()
+                canon = hash(statekey.canon_labels(acts, sched, rank)) if rank is not None else 0
+                if rank is not None:
+                    # the set of enabled actions is made part of the key: two states that offer different actions are
+                    # never merged, whatever the digest of their components says
+                    key = (key, canon)
                 if cur_parent is not None:
                     succ.setdefault(cur_parent, set()).add(key)
                     res.transitions += 1
-                elif key not in seen:
-                    pass
-                acts = [] if (finished or viol) else sched.enabled()
-                canon = hash(statekey.canon_labels(acts, sched, rank)) if rank is not None else 0
                 ndev = sum(1 for c in choices if c)
                 if key in seen:
                     if check_key_soundness and seen[key] != canon:
